@@ -84,12 +84,17 @@ Proof.
   assert (Pc : P c) by (split; auto).
   assert (R : forall k, resolve s' c k = resolve s c k).
   { intros. unfold resolve. apply (resolve_agree _ _ P AG CL). auto. }
-  unfold same_view. split; [apply AG; auto | split; [| split; [exact R | split; [| split; [| split]]]]].
+  assert (FL : flat s' c = flat s c).
+  { unfold flat. apply (flat_agree _ _ P AG CL). auto. }
+  unfold same_view. split; [apply AG; auto | split; [| split; [exact R | split; [| split; [| split; [| split]]]]]].
   - intros. unfold obs. apply (obs_agree _ _ P AG CL). auto.
   - unfold get_tname. apply (tname_agree _ _ P AG CL). auto.
   - unfold get_extends. apply (extends_agree _ _ P AG CL). auto.
-  - unfold flat. apply (flat_agree _ _ P AG CL). auto.
+  - exact FL.
   - apply verdicts_ext; auto. apply AG. auto.
+  - unfold alias_table. rewrite FL. apply alias_list_agree.
+    intros k t HI a. unfold resolve. apply (resolve_agree _ _ P AG CL).
+    unfold flat in HI. eapply (flat_types_in_P (cl s) P CL); eauto.
 Qed.
 
 (** ** frame for one step *)
@@ -115,8 +120,8 @@ Qed.
 Lemma same_view_trans : forall s1 s2 s3 c,
   same_view s1 s2 c -> same_view s2 s3 c -> same_view s1 s3 c.
 Proof.
-  unfold same_view. intros s1 s2 s3 c [A1 [A2 [A3 [A4 [A5 [A6 A7]]]]]] [B1 [B2 [B3 [B4 [B5 [B6 B7]]]]]].
-  split; [congruence | split; [| split; [| split; [| split; [| split]]]]]; try congruence.
+  unfold same_view. intros s1 s2 s3 c [A1 [A2 [A3 [A4 [A5 [A6 [A7 A8]]]]]]] [B1 [B2 [B3 [B4 [B5 [B6 [B7 B8]]]]]]].
+  split; [congruence | split; [| split; [| split; [| split; [| split; [| split]]]]]]; try congruence.
   all: intros; first [rewrite B2, A2; reflexivity | rewrite B3, A3; reflexivity].
 Qed.
 
@@ -203,7 +208,8 @@ Proof.
   destruct ((k' <? 0) || (k' =? K_EXPLICIT_TN)) eqn:C1; auto.
   destruct (k' =? K_TYPE_NAME) eqn:C2.
   - simpl. destruct (k =? K_EXPLICIT_TN); auto.
-  - destruct (k' =? K_EXC_TABLE) eqn:C3.
+  - destruct ((k' =? K_PROTOCOL) || (k' =? K_P)) eqn:C2'; [simpl; destruct (k =? K_PROT); auto |].
+    destruct (k' =? K_EXC_TABLE) eqn:C3.
     + simpl. destruct (k =? K_EXC_TABLE) eqn:D1; simpl; auto.
       destruct (k =? K_EXC_DB); auto.
     + destruct ((k' =? K_MAX_OCCURS) && is_unbounded v) eqn:C4.
@@ -265,13 +271,13 @@ Lemma fresh_simple : forall s c kw s' n,
     n = size s /\ lookup s' n = Some r' /\
     c_kind r' = KSimple fam /\ c_base r' = Some c /\ c_orig r' = Some (root_of s c) /\
     c_fields r' = [] /\
-    forall fuel k, resolve_f (S fuel) (cl s') n k = fresh_lookup s c kw1 fuel k.
+    forall fuel k, resolve_f (S fuel) (cl s') n k = fresh_lookup s c (eff_kw s kw1) fuel k.
 Proof.
   intros s c kw s' n W H.
   destruct (customize_simple_shape _ _ _ _ _ H) as [r [fam [kw1 [tn [ex [L [K [D [X A]]]]]]]]].
   exists r, fam, kw1. eexists.
   assert (S' : s' = fst (alloc s (mkcls (KSimple fam) (Some c)
-     (apply_kwargs kw1 (fresh_attrs s c)) tn (Some (orig_or_self r c)) ex []))) by (rewrite <- A; auto).
+     (apply_kwargs (eff_kw s kw1) (fresh_attrs s c)) tn (Some (orig_or_self r c)) ex []))) by (rewrite <- A; auto).
   assert (N : n = size s) by (unfold alloc in A; inversion A; auto).
   subst n. split; [exact L | split; [exact K | split; [exact D | split; [reflexivity |]]]].
   split; [subst s'; apply lookup_alloc_new |]. cbn [c_kind c_base c_orig c_fields].
@@ -279,7 +285,7 @@ Proof.
   - unfold root_of. rewrite L. reflexivity.
   - intros. subst s'. rewrite resolve_new; auto.
     + simpl. rewrite zassoc_apply_kwargs. unfold fresh_lookup.
-      destruct (requested k kw1); [reflexivity |]. rewrite zassoc_fresh_attrs.
+      destruct (requested k (eff_kw s kw1)); [reflexivity |]. rewrite zassoc_fresh_attrs.
       destruct (k =? K_EXPLICIT_TN); [reflexivity |].
       destruct (k =? K_NULLABLE) eqn:E; reflexivity.
     + simpl. exists c. split; auto. eapply lookup_some; eauto.
@@ -302,13 +308,13 @@ Lemma fresh_complex : forall fuel s c kw ca caa s' n,
     lookup s c = Some r /\ is_simple (c_kind r) = false /\
     n = size s /\ lookup s' n = Some r' /\
     c_kind r' = c_kind r /\ c_base r' = Some c /\ c_orig r' = Some (root_of s c) /\
-    forall fuel k, resolve_f (S fuel) (cl s') n k = fresh_lookup s c kw fuel k.
+    forall fuel k, resolve_f (S fuel) (cl s') n k = fresh_lookup s c (eff_kw s kw) fuel k.
 Proof.
   intros fuel s c kw ca caa s' n I H.
   destruct (customize_complex_ok _ _ _ _ _ _ _ _ I H) as [N [Z [I' [X [R [s0 [Q X0]]]]]]].
   destruct (customize_plain_shape _ _ _ _ _ Q) as [r [t0 [tnm [L [K [T [_ S0]]]]]]].
   cbv zeta in S0. subst n.
-  set (r0 := mkcls (c_kind r) (Some c) (apply_kwargs kw (fresh_attrs s c)) (Some tnm)
+  set (r0 := mkcls (c_kind r) (Some c) (apply_kwargs (eff_kw s kw) (fresh_attrs s c)) (Some tnm)
                    (Some (orig_or_self r c)) (Some (get_extends s c)) (c_fields r)) in *.
   assert (L0 : lookup s0 (size s) = Some r0).
   { subst s0. destruct (c =? CID_COMPLEXMODEL);
@@ -320,7 +326,7 @@ Proof.
   - intros. rewrite (resolve_unfold _ _ _ _ r') by exact L'.
     rewrite S3, S2. unfold r0. cbn [c_attrs c_base].
     rewrite zassoc_apply_kwargs. unfold fresh_lookup.
-    destruct (requested k kw); [reflexivity |]. rewrite zassoc_fresh_attrs.
+    destruct (requested k (eff_kw s kw)); [reflexivity |]. rewrite zassoc_fresh_attrs.
     assert (AG : resolve_f fuel0 (cl s') c k = resolve_f fuel0 (cl s) c k).
     { destruct I as [W _]. destruct X as [_ [XB _]].
       apply (resolve_agree (cl s) _ (fun x => 0 <= x < size s)).
@@ -340,7 +346,7 @@ Proof.
   intros.
   destruct (customize_plain_shape _ _ _ _ _ H) as [r [t0 [tnm [L [K [T [N S0]]]]]]].
   cbv zeta in S0. subst n.
-  set (r0 := mkcls (c_kind r) (Some c) (apply_kwargs kw (fresh_attrs s c)) (Some tnm)
+  set (r0 := mkcls (c_kind r) (Some c) (apply_kwargs (eff_kw s kw) (fresh_attrs s c)) (Some tnm)
                    (Some (orig_or_self r c)) (Some (get_extends s c)) (c_fields r)) in *.
   assert (L0 : lookup s' (size s) = Some r0).
   { subst s'. destruct (c =? CID_COMPLEXMODEL);
@@ -423,14 +429,14 @@ Lemma resolve_after : forall s c kw s0 n s',
   exists r r',
     lookup s c = Some r /\ n = size s /\ lookup s' n = Some r' /\
     c_kind r' = c_kind r /\ c_base r' = Some c /\ c_orig r' = Some (root_of s c) /\
-    forall fuel k, resolve_f (S fuel) (cl s') n k = fresh_lookup s c kw fuel k.
+    forall fuel k, resolve_f (S fuel) (cl s') n k = fresh_lookup s c (eff_kw s kw) fuel k.
 Proof.
   intros s c kw s0 n s' I Q X0.
   pose proof (customize_plain_derived _ _ _ _ _ Q) as [_ [_ [D3 _]]].
   assert (X : ext (size s) s s') by (eapply ext_trans; eauto).
   destruct (customize_plain_shape _ _ _ _ _ Q) as [r [t0 [tnm [L [K [T [N S0]]]]]]].
   cbv zeta in S0. subst n.
-  set (r0 := mkcls (c_kind r) (Some c) (apply_kwargs kw (fresh_attrs s c)) (Some tnm)
+  set (r0 := mkcls (c_kind r) (Some c) (apply_kwargs (eff_kw s kw) (fresh_attrs s c)) (Some tnm)
                    (Some (orig_or_self r c)) (Some (get_extends s c)) (c_fields r)) in *.
   assert (L0 : lookup s0 (size s) = Some r0).
   { subst s0. destruct (c =? CID_COMPLEXMODEL);
@@ -442,7 +448,7 @@ Proof.
   - intros. rewrite (resolve_unfold _ _ _ _ r') by exact L'.
     rewrite S3, S2. unfold r0. cbn [c_attrs c_base].
     rewrite zassoc_apply_kwargs. unfold fresh_lookup.
-    destruct (requested k kw); [reflexivity |]. rewrite zassoc_fresh_attrs.
+    destruct (requested k (eff_kw s kw)); [reflexivity |]. rewrite zassoc_fresh_attrs.
     assert (AG : resolve_f fuel (cl s') c k = resolve_f fuel (cl s) c k).
     { destruct I as [W _]. destruct X as [_ [XB _]].
       apply (resolve_agree (cl s) _ (fun x => 0 <= x < size s)).
@@ -470,6 +476,10 @@ Proof.
     repeat (constructor; [simpl; intuition discriminate |]); constructor.
 Qed.
 
+Lemma mandatory_kw_no_prot : forall tnm extra,
+  (extra = [] \/ extra = [(K_MIN_LEN, VInt 1)]) -> prot_of (mandatory_kw tnm ++ extra) = None.
+Proof. intros tnm extra [E | E]; subst extra; destruct tnm; reflexivity. Qed.
+
 Lemma mandatory_attrs : forall fuel s c s' n,
   inv s -> mandatory fuel s c = ROk (s', n) ->
   forall f, resolve_f (S f) (cl s') n K_MIN_OCCURS = Some (VInt 1) /\
@@ -485,7 +495,8 @@ Proof.
   { intros s1 Q X. destruct (resolve_after _ _ _ _ _ _ I Q X) as [_ [_ [_ [_ [_ [_ [_ [_ R]]]]]]]].
     rewrite !R. unfold fresh_lookup.
     destruct (mandatory_kw_requests tnm [] (or_introl eq_refl)) as [A [B _]].
-    rewrite app_nil_r in A, B. rewrite A, B. split; reflexivity. }
+    pose proof (mandatory_kw_no_prot tnm [] (or_introl eq_refl)) as NP.
+    rewrite app_nil_r in A, B, NP. rewrite (eff_kw_no_prot _ _ NP). rewrite A, B. split; reflexivity. }
   destruct (c_kind r) as [fam | |].
   - (* a primitive *)
     assert (SIMPLE : forall extra, (extra = [] \/ extra = [(K_MIN_LEN, VInt 1)]) ->
@@ -499,7 +510,12 @@ Proof.
       { destruct fam1; try (inversion D; subst kw1; split; assumption).
         destruct (decimal_keywords _ _ _ _ D ND) as [KK _].
         rewrite (KK K_MIN_OCCURS), (KK K_NULLABLE) by discriminate. split; assumption. }
-      destruct RQ as [RA RB]. rewrite !R. unfold fresh_lookup. rewrite RA, RB. split; reflexivity. }
+      assert (NP : prot_of kw1 = None).
+      { pose proof (mandatory_kw_no_prot tnm extra EX) as NP0.
+        destruct fam1; try (inversion D; subst kw1; exact NP0).
+        rewrite (decimal_pre_prot _ _ _ _ D). exact NP0. }
+      destruct RQ as [RA RB]. rewrite !R. unfold fresh_lookup. rewrite (eff_kw_no_prot _ _ NP).
+      rewrite RA, RB. split; reflexivity. }
     destruct fam.
     + apply (SIMPLE []); [left; reflexivity | rewrite app_nil_r; exact H].
     + apply (SIMPLE [(K_MIN_LEN, VInt 1)]); [right; reflexivity | exact H].
@@ -524,7 +540,7 @@ Lemma array_shape : forall s base t kw s' n,
   inv s -> make_array s base t kw = ROk (s', n) ->
   exists member ser,
     fields_of s' n = [(member, ser)] /\ root_of s' ser = root_of s t /\
-    forall f k, resolve_f (S f) (cl s') n k = fresh_lookup s base kw f k.
+    forall f k, resolve_f (S f) (cl s') n k = fresh_lookup s base (eff_kw s kw) f k.
 Proof.
   unfold make_array. intros s base t kw s' n I H.
   destruct (lookup s base) as [rb |] eqn:Lb; try discriminate.
@@ -563,4 +579,18 @@ Proof.
   - assert (X : ext (size s) s1 (upd s2 (size s) f)).
     { eapply ext_trans; [apply X2 |]. apply ext_upd; [lia | exact SF]. }
     destruct (resolve_after _ _ _ _ _ _ I Q1 X) as [_ [_ [_ [_ [_ [_ [_ [_ R]]]]]]]]. exact R.
+Qed.
+
+(** * T(kw) on a ByteArray type that does not name an encoding keeps the encoding *)
+Lemma call_keeps_encoding : forall s c r kw s' n,
+  wf s -> lookup s c = Some r -> c_kind r = KSimple FByteArray ->
+  call_simple s c kw = ROk (s', n) ->
+  zassoc K_ENCODING kw = None -> requested K_ENCODING (eff_kw s kw) = None ->
+  forall fuel, resolve_f (S fuel) (cl s') n K_ENCODING = resolve_f fuel (cl s) c K_ENCODING.
+Proof.
+  intros s c r kw s' n W L K H NE NR fuel.
+  unfold call_simple in H. rewrite L, K in H. unfold bytearray_new in H. rewrite NE in H.
+  destruct (fresh_simple _ _ _ _ _ W H) as [r0 [fam [kw1 [r' [L0 [K0 [D [_ [_ [_ [_ [_ [_ R]]]]]]]]]]]]].
+  rewrite L in L0. inversion L0; subst r0. rewrite K in K0. inversion K0; subst fam.
+  inversion D; subst kw1. rewrite R. unfold fresh_lookup. rewrite NR. reflexivity.
 Qed.
